@@ -808,41 +808,79 @@ def run(ctx):
     if not okf:
         ctx.violation("marker-compare", cf.file_line(), "a found breakpoint must be let through only when the just-paused marker names this very address (`%s != Some(pc)`); "
                       "the marker is examined by %s: resuming from one breakpoint can then run through a different one" % (mk, badt or "nothing"))
-    # a breakpoint that was found - and is not the one just left - always stops: behind the Some edge of the lookup (with the marker test
-    # folded into it, or made right behind it) no path reaches a return without the stop; any further condition there (a source line that
-    # must exist, a flag) lets execution run through breakpoints it does not hold for
+    # a breakpoint that was found - and is not the one just left - always stops: the only things the stop for a breakpoint hangs on are the
+    # lookup itself and the just-paused marker. Every branch condition that dominates that stop is read (through named temporaries and
+    # through locals assigned on several paths): it may consult Breakpoints::get, the marker and the PC - nothing else (a source line that
+    # must exist, a flag, another table)
     ctx.instance(1)
-    some_edges = []
-    for sb_ in sorted(cf.live_blocks()):
-        tt_ = cf.term(sb_)
-        sd_ = kit.switch_on_discr_of_local(cf, sb_)
-        if tt_["k"] != "switch" or not sd_ or sd_[1] != "core::option::Option":
-            continue
-        src_ = cf.expr(tt_["a"], 12)
-        if any(x[0] == "call" and x[1] == BP + "::get" for x in expr_walk(src_)):
-            some_edges.append({v: x for v, x in tt_["targets"]}.get(1, tt_["otherwise"] if 0 in {v for v, x in tt_["targets"]} else None))
-    equal_edges = set()
-    for f_, b_, t_, c_, args in tests:
-        if f_ is cf and c_ and t_.get("t") is not None and re.search(r"PartialEq(>)?::(eq|ne)$", str(c_)):
-            sw_ = cf.term(t_["t"])
-            if sw_["k"] == "switch":
-                tg_ = {v: x for v, x in sw_["targets"]}
-                true_t, false_t = (sw_["otherwise"] if 0 in tg_ else tg_.get(1)), tg_.get(0, sw_["otherwise"])
-                equal_edges.add(true_t if str(c_).endswith("eq") else false_t)
-    equal_edges.discard(None)
-    leaks = set()
-    for se in some_edges:
-        if se is not None:
-            leaks |= (cf.reachable(se, avoid=wb_cf | equal_edges) | {se}) & set(rets)
-    okl = bool(some_edges) and not leaks
-    ctx.oblig(okl, {"found breakpoint": "stops on every path behind the lookup's Some edge (marker test aside)"}, "must-pass-through")
+    OK_CALL = re.compile(r"Option::<T>::(filter|is_some|is_none|is_some_and|is_none_or|copied|cloned|as_ref)$|PartialEq(<.*>)?>?::(eq|ne)$|ops::function::Fn(Mut|Once)?(<.*>)?>?::call(_mut|_once)?$")
+
+    def foreign(f, e, depth=0, seen=None):
+        """calls (or unreadable parts) of condition e that are neither the lookup nor the marker test"""
+        seen = seen if seen is not None else set()
+        out = []
+        for x in expr_walk(e):
+            if x[0] == "call":
+                nm = str(x[1])
+                if nm == BP + "::get" or OK_CALL.search(nm):
+                    continue
+                out.append(short(nm))
+            elif x[0] == "agg" and isinstance(x[1], tuple) and x[1] and x[1][0] == "closure":
+                g = prog.fns.get(x[1][1])
+                if g is None:
+                    out.append("closure?")
+                else:
+                    out += [short(c_) for b_, t_, c_ in g.calls() if not (c_ and (c_ == BP + "::get" or OK_CALL.search(c_)))]
+            elif x[0] == "local" and depth < 3 and (f.name, x[1]) not in seen:
+                seen.add((f.name, x[1]))
+                for kind_, db_, i_, node_ in f.defs().get(x[1], []):
+                    if kind_ == "stmt":
+                        out += foreign(f, f.rvalue_expr(node_["r"], 10), depth + 1, seen)
+                    else:
+                        c_ = callee_of(node_)
+                        if not (c_ and (c_ == BP + "::get" or OK_CALL.search(c_))):
+                            out.append(short(c_ or "?"))
+                        for a_ in node_["args"]:
+                            out += foreign(f, f.expr(a_, 10), depth + 1, seen)
+        return out
+
+    def about_lookup(f, e, depth=0, seen=None):
+        seen = seen if seen is not None else set()
+        for x in expr_walk(e):
+            if x[0] == "call" and x[1] == BP + "::get":
+                return True
+            if x[0] == "local" and depth < 3 and (f.name, x[1]) not in seen:
+                seen.add((f.name, x[1]))
+                for kind_, db_, i_, node_ in f.defs().get(x[1], []):
+                    if kind_ == "call" and callee_of(node_) == BP + "::get":
+                        return True
+                    ee_ = f.rvalue_expr(node_["r"], 10) if kind_ == "stmt" else ("call", callee_of(node_), tuple(f.expr(a_, 10) for a_ in node_["args"]))
+                    if about_lookup(f, ee_, depth + 1, seen):
+                        return True
+        return False
+    succ_cf = cf.succ_map()
+    bp_stops, extra = [], []
+    for w in sorted(wb_cf):
+        conds_w = []
+        for d_ in sorted(cf.dominators().get(w, ())):
+            tt_ = cf.term(d_)
+            if d_ == w or tt_["k"] != "switch":
+                continue
+            toward = [x_ for x_ in succ_cf[d_] if x_ == w or cf.dominates(x_, w)]
+            if len(toward) == 1:
+                conds_w.append((d_, cf.expr(tt_["a"], 12)))
+        if any(about_lookup(cf, c_) for d_, c_ in conds_w):
+            bp_stops.append(w)
+            for d_, c_ in conds_w:
+                fr = foreign(cf, c_)
+                if fr:
+                    extra.append((d_, sorted(set(fr))))
+    okl = bool(bp_stops) and not extra
+    ctx.oblig(okl, {"found breakpoint": "the stop hangs on the lookup and the just-paused marker alone", "stops for a breakpoint": len(bp_stops)}, "every dominating condition read")
     if not okl:
-        pth = None
-        for se in some_edges:
-            pth = pth or (cf.path(se, leaks, avoid=wb_cf | equal_edges) if se is not None and leaks else None)
-        ctx.violation("found-breakpoint-not-stopped", cf.file_line(),
-                      "behind a successful breakpoint lookup the interrupt check can still return without pausing%s: some further condition decides whether a breakpoint "
-                      "that is in the list (and is not the one just left) stops execution" % (" (lines %s)" % cf.path_lines(pth) if pth else ""))
+        ctx.violation("found-breakpoint-not-stopped", sp_file_line(cf.term(extra[0][0]).get("sp")) if extra else cf.file_line(),
+                      "whether a breakpoint that is in the list (and is not the one just left) stops execution also depends on %s: behind a successful lookup the "
+                      "interrupt check can still let execution run on" % (("`%s`" % ", ".join(extra[0][1])) if extra else "something this check could not find (no stop is tied to Breakpoints::get)"))
     for b in sorted(mk_blocks):
         for s_ in cf.stmts(b):
             if s_["k"] == "assign" and [e.get("n") for e in s_["p"].get("pr", []) if isinstance(e, dict) and "f" in e][-1:] == [mk]:
